@@ -753,7 +753,7 @@ def check(run, props):
         if j % 2:
             h2 = [op for op in h2 if op['op'] != 'close']
         bigdecl.append((3 * 10 ** 6 + j, h2, False))
-    cap = 4000 if run.quick else 30000          # TLC checks every history; the implementation replays a seeded sample of them
+    cap = 4000 if run.quick else 10000          # TLC checks every history; the implementation replays a seeded sample of them
     run.extra['histories_total'] = len(items)
     if len(items) > cap:
         keep = [it for it in items if it[2]]
